@@ -269,9 +269,20 @@ def run(ctx):
                 base = strip_sym(sy.local(s["p"]["l"]))
                 if "or_insert" in repr(base):
                     writes_through.append(s)
+        # `if let Entry::Vacant(slot) = map.entry(name) { slot.insert(v) }` is or_insert(v) spelled out: an insert through
+        # the VacantEntry handed out by entry(), reachable only on the Vacant edge
+        vac = [c for c in muts if "VacantEntry" in (c.resolved or "") and callee_method_name(c) == "insert" and c.fn is adm and any(lab == "Vacant" and sym_is_call(dd, "entry") for dd, lab in gates(adm.body, c.bb))]
+        if len(vac) == 1 and not ent and len(muts) == 1:
+            slot = strip_sym(arg_syms(vac[0])[0])
+            src = next((x for x in sym_walk(slot) if isinstance(x, tuple) and x and x[0] == "call" and sym_is_call(x, "entry")), None)
+            ent = [vac[0]]
+            muts = []
+            _recv_override = src
+        else:
+            _recv_override = None
         ok = len(ent) == 1 and not muts and not writes_through
         if ok:
-            recv = strip_sym(arg_syms(ent[0])[0])
+            recv = strip_sym(_recv_override) if _recv_override is not None else strip_sym(arg_syms(ent[0])[0])
             ok = sym_is_call(recv, "entry") and sym_is_call(strip_sym(recv[2][1]), "formatting::sanitize_metric_name")
             v = strip_sym(arg_syms(ent[0])[1])
             if v[0] == "agg" and v[1] == "tuple":
